@@ -801,6 +801,9 @@ Definition regression_probes : list probe := [
   P "fixed:C14-descriptor-panic"
     "(function(){var a=Object.getOwnPropertyDescriptor(function(){},'caller'),b=Object.getOwnPropertyDescriptor(new Error('m'),'stack');return [typeof a,'value' in a,a.enumerable,typeof b,'value' in b].join()})()"
     "object,false,false,object,false";
+  P "fixed:C14-regexp-prototype-panic"
+    "(function(){var P=RegExp.prototype,m=P.exec('abc');return [P.test(''),P.test('xyz'),m[0]==='',m.index,m.length,'abc'.replace(P,'-'),'abc'.search(P),'ab'.split(P).join('|'),'abc'.match(P)[0]===''].join()})()"
+    "true,true,true,0,1,-abc,0,a|b,true";
   P "fixed:C14-bound-instanceof"
     "(function(){function K(){}var B=K.bind(null);return [new B instanceof B,new K instanceof B,({}) instanceof B].join()})()"
     "true,true,false"
